@@ -21,6 +21,18 @@ type PropConfig struct {
 	Assume     []string `json:"assumptions"`
 	DesignRef  string   `json:"design_ref"`
 	ExtraFuncs []string `json:"extra_functions"` // "pkgpath:Key" verified with an empty contract (guard sites are found automatically)
+	Bounded    []BoundedCheck `json:"bounded"`
+}
+
+// BoundedCheck: a bounded stand-in for one function the deductive proof does not (fully) reach: the real function is
+// executed over a stated finite domain against an independent oracle. Labelled bounded, never counted as proved.
+type BoundedCheck struct {
+	Function string `json:"function"`
+	Pkg      string `json:"pkg"`     // repo-relative package dir
+	Harness  string `json:"harness"` // file under /verif/harness
+	Test     string `json:"test"`
+	Bound    string `json:"bound"`
+	Reason   string `json:"reason"`
 }
 
 type KnownFinding struct {
@@ -125,6 +137,7 @@ func cmdCheck(args []string) int {
 	}
 	eng := newEngine(prog, specs)
 	eng.filterProp = id
+	eng.thorough = *tier == "thorough"
 
 	// ---- select functions
 	type job struct {
@@ -135,8 +148,8 @@ func cmdCheck(args []string) int {
 	var undecided []string
 	done := map[*ssa.Function]bool{}
 	for _, sp := range specs.funcSpecsSorted() {
-		if !hasProp(sp.Props, id) || sp.Trusted {
-			continue
+		if !hasProp(sp.Props, id) || sp.Trusted || sp.Inline {
+			continue // inline helpers are verified in the context of their callers
 		}
 		if _, isTarget := prog.SSAPkgs[sp.Pkg]; !isTarget {
 			continue
@@ -244,6 +257,12 @@ func cmdCheck(args []string) int {
 	if *tier == "thorough" {
 		opts = solveOpts{timeoutS: 30, retryS: 120, both: true, workers: 8}
 	}
+	if v := os.Getenv("TVC_TIMEOUT_S"); v != "" {
+		opts.timeoutS, _ = strconv.Atoi(v)
+	}
+	if v := os.Getenv("TVC_RETRY_S"); v != "" {
+		opts.retryS, _ = strconv.Atoi(v)
+	}
 	if *dump != "" {
 		os.MkdirAll(*dump, 0o755)
 	}
@@ -341,9 +360,65 @@ func cmdCheck(args []string) int {
 		}
 	}
 
+	// ---- bounded stand-ins (never counted as proved)
+	var boundedEv []map[string]interface{}
+	type bfail struct {
+		b     BoundedCheck
+		input string
+		line  string
+	}
+	var bfails []bfail
+	for _, b := range cfg.Bounded {
+		ok, log := runHarness(prog.RepoDir, b.Pkg, b.Harness, b.Test, map[string]string{"TVC_TIER": *tier, "VERIF_SEED": fmt.Sprint(seed)})
+		evals := 0
+		var fails []string
+		for _, l := range strings.Split(log, "\n") {
+			if i := strings.Index(l, "TVC-EVALS "); i >= 0 {
+				fmt.Sscanf(l[i+10:], "%d", &evals)
+			}
+			if i := strings.Index(l, "TVC-FAIL "); i >= 0 {
+				fails = append(fails, strings.TrimSpace(l[i+9:]))
+			}
+		}
+		if !ok && len(fails) == 0 {
+			fails = append(fails, "input=<harness did not run> "+truncate(log, 400))
+		}
+		nKnown := 0
+		for _, f := range fails {
+			inp := f
+			if j := strings.Index(f, " got="); j >= 0 {
+				inp = f[:j]
+			}
+			name := b.Function + "#bounded:" + inp
+			if k, isKnown := knownOpen[name]; isKnown {
+				fmt.Printf("KNOWN-FINDING: property=%s %s (%s)\n", id, k.What, name)
+				nKnown++
+				continue
+			}
+			bfails = append(bfails, bfail{b, inp, f})
+		}
+		boundedEv = append(boundedEv, map[string]interface{}{"function": b.Function, "bound": b.Bound, "reason": b.Reason, "harness": b.Harness, "evaluations": evals, "failing_inputs": len(fails), "known_findings": nKnown, "counted_as_proved": false})
+	}
+
 	// ---- report
 	exit := 0
 	violations := 0
+	if !*update {
+		for i, bf := range bfails {
+			if i >= 5 {
+				break
+			}
+			violations++
+			os.MkdirAll(filepath.Join(vd, "replays", id), 0o755)
+			path := filepath.Join(vd, "replays", id, mangle(bf.b.Function+"_bounded_"+fmt.Sprint(i))+".json")
+			rep := map[string]interface{}{"property": id, "obligation": bf.b.Function + "#bounded:" + bf.input, "kind": "bounded", "function": bf.b.Function,
+				"failing_input": bf.input, "observed": bf.line, "replay_cmd": fmt.Sprintf("go test -overlay <ov.json mapping %s/zz_tvc_harness_test.go to /verif/harness/%s> -tags default_build -vet=off -run %s ./%s/", bf.b.Pkg, bf.b.Harness, bf.b.Test, bf.b.Pkg), "replay_confirmed": true}
+			bts, _ := json.MarshalIndent(rep, "", " ")
+			os.WriteFile(path, bts, 0o644)
+			fmt.Printf("VIOLATION property=%s replay=%s\n  bounded stand-in for %s failed on the real code: %s\n", id, path, bf.b.Function, bf.line)
+			exit = 1
+		}
+	}
 	replayDir := filepath.Join(vd, "replays", id)
 	for _, o := range knownSeen {
 		k := knownOpen[o.Name]
@@ -462,6 +537,7 @@ func cmdCheck(args []string) int {
 				"known_findings_reported":  knownList,
 				"generated_but_unproved_not_counted": unprovedList,
 				"unproved_clauses":         cfg.Unproved,
+				"bounded":                  boundedEv,
 				"undecided":                undecided,
 				"contract_files":           relFiles(specs.Files),
 				"solver_s":                 float64(solverMs) / 1000.0,
